@@ -36,7 +36,7 @@ pub(crate) struct LotteryCall {
     pub total: u64,
     pub won: bool,
 }
-pub(crate) const LOG_CAP: usize = 6;
+pub(crate) const LOG_CAP: usize = 4;
 pub(crate) static mut LOTTERY_LOG: [Option<LotteryCall>; LOG_CAP] = [None; LOG_CAP];
 pub(crate) static mut LOTTERY_N: usize = 0;
 
@@ -139,7 +139,7 @@ pub(crate) fn any_params() -> Parameters {
 /// K-bounded twin of the Verus proof of check_indices (2 indices, everything else fully symbolic):
 /// Ok ==> every index < m and a WON lottery evaluation was made for that very index, stake and total stake.
 #[kani::proof]
-#[kani::unwind(8)]
+#[kani::unwind(6)]
 #[kani::stub(crate::signature_scheme::bls_multi_signature::signature::BlsSignature::evaluate_dense_mapping, stub_dense_mapping)]
 #[kani::stub(crate::proof_system::concatenation::eligibility::is_lottery_won, stub_lottery)]
 #[kani::stub(std::backtrace::Backtrace::capture, stub_backtrace)]
@@ -172,7 +172,7 @@ fn c01_check_indices_two_indices() {
 /// SingleSignatureForConcatenation::verify: Ok ==> BLS verification of sigma under THE GIVEN key on msg || avk.root
 /// succeeded, and check_indices' postcondition holds for msg || root, the given stake and the avk's total stake.
 #[kani::proof]
-#[kani::unwind(8)]
+#[kani::unwind(6)]
 #[kani::stub(crate::signature_scheme::bls_multi_signature::signature::BlsSignature::evaluate_dense_mapping, stub_dense_mapping)]
 #[kani::stub(crate::signature_scheme::bls_multi_signature::signature::BlsSignature::verify, stub_bls_verify)]
 #[kani::stub(crate::proof_system::concatenation::eligibility::is_lottery_won, stub_lottery)]
